@@ -1,5 +1,6 @@
 import CoxeterVerif.Lemmas.CovariancePolytri
 import CoxeterVerif.Lemmas.CovarianceInside3D
+import CoxeterVerif.Lemmas.CovarianceInside2D
 import CoxeterVerif.Lemmas.CovarianceCircle
 import CoxeterVerif.Lemmas.CovarianceBalls
 import CoxeterVerif.Lemmas.CovarianceDts
@@ -506,37 +507,67 @@ theorem inside_round_sim {g : Sim} (hg : g.Proper) (r : ℝ) (c p : V3 ℝ) {k :
   ⟨Sim.sphere_isInside1 hg r c p, Sim.ellipsoid_isInside1 hk t a b c' cen p,
    Sim.ellipsoid_isInside1_quarter a b c' cen p, Sim.sphero_isInside1 hg r eqs faces extruded p⟩
 
-/-- **C09, `Circle.is_inside`**: in-plane part covariant under every similarity that keeps the `z` direction;
-the out-of-plane switch `np.isclose(z, 0)` is absolute, so the decision is covariant exactly when the offset and
-its image are on the same side of `1e-8` — always for points of the circle's plane, always for rigid motions,
-and for a scale factor `k` whenever `|dz| ≤ 1e-8·min(1, 1/k)` or `|dz| > 1e-8·max(1, 1/k)`. -/
-theorem inside_circle_sim_partial {g : Sim} (hg : g.Proper) (hz : Inside2D.KeepsZ g) (r : ℝ) (c p : V3 ℝ) :
-    ((|g.k * (p - c).z| ≤ 1 / 100000000 ↔ |(p - c).z| ≤ 1 / 100000000) →
-      Inside2D.Circle.isInside1 (g.k * r) (g.pt c) (g.pt p) = Inside2D.Circle.isInside1 r c p) ∧
-    (p.z = c.z → Inside2D.Circle.isInside1 (g.k * r) (g.pt c) (g.pt p) = Inside2D.Circle.isInside1 r c p) ∧
-    ((|(p - c).z| ≤ 1 / 100000000 * Min.min 1 (1 / g.k) ∨ 1 / 100000000 * Max.max 1 (1 / g.k) < |(p - c).z|) →
-      Inside2D.Circle.isInside1 (g.k * r) (g.pt c) (g.pt p) = Inside2D.Circle.isInside1 r c p) :=
-  ⟨Inside2D.circle_isInside1_sim hg hz r c p, Inside2D.circle_isInside1_inplane hg hz r c p,
-   fun h => Inside2D.circle_isInside1_sim hg hz r c p (Inside2D.isclose_window_scale hg.kpos h)⟩
+/-- **C09, `Polygon.is_inside` (decision)**: invariant under every proper similarity of SPACE — the polygon may
+leave its plane, the stored normal becomes `R n`, and Kabsch may return any frame `K'` for the new normal — for every
+simple polygon that is the boundary chain of a consistently oriented triangulation and every point whose projection
+is off the triangle edges (hypotheses of C06's `polygon_inside3_iff`, on `x` only). -/
+theorem inside_polygon_sim {g : Sim} (hg : g.Proper) {K K' : M3 ℝ} {n : V3 ℝ}
+    (hK : Inside2D.IsFrame K n) (hK' : Inside2D.IsFrame K' (g.dir n))
+    {verts : List (V3 ℝ)} {Ts : List (Spec.In2D.Tri3 ℝ)} {p : V3 ℝ}
+    (hchain : Inside2D.EdgeChainEq3 (Inside2D.edges verts) (Ts.flatMap Spec.In2D.Tri3.bdry))
+    (hor : (∀ t ∈ Ts, 0 < Spec.In2D.orient3 n t.a t.b t.c) ∨ (∀ t ∈ Ts, Spec.In2D.orient3 n t.a t.b t.c < 0))
+    (hoff : ∀ t ∈ Ts, Spec.In2D.onBoundary3 n t p = false) :
+    Inside2D.Polygon.isInside K' (verts.map g.pt) [g.pt p] = Inside2D.Polygon.isInside K verts [p] :=
+  Sim.polygon_isInside hg hK hK' hchain hor hoff
 
-/-- **the absolute `isclose(z, 0)` window breaks scale covariance inside the property's range** (unit circle,
-point `2·10⁻⁸` above the centre, scale `1/10`) -/
-theorem inside_circle_scale_fails :
-    ¬ (∀ (k : ℝ), 0 < k → ∀ (r : ℝ) (c p : V3 ℝ),
-        Inside2D.Circle.isInside1 (k * r) (V3.smul k c) (V3.smul k p) = Inside2D.Circle.isInside1 r c p) :=
-  Inside2D.circle_inside_scale_fails
+/-- the half-turn summand of `Polygon.is_inside` (coordinate signs with the `x = 0` tie rule) is invariant under
+in-plane translations and positive scalings for every edge and point — and hence so is the decision in the frame — -/
+theorem inside_polygon_summand_trans_scale {k : ℝ} (hk : 0 < k) (t p a b : Inside2D.P2 ℝ) (vs : List (Inside2D.P2 ℝ)) :
+    Inside2D.Polygon.halfTurn ⟨k * p.x + t.x, k * p.y + t.y⟩ ⟨k * a.x + t.x, k * a.y + t.y⟩ ⟨k * b.x + t.x, k * b.y + t.y⟩
+      = Inside2D.Polygon.halfTurn p a b ∧
+    Inside2D.Polygon.isInsideRot (vs.map fun v => (⟨k * v.x + t.x, k * v.y + t.y⟩ : Inside2D.P2 ℝ))
+        ⟨k * p.x + t.x, k * p.y + t.y⟩ = Inside2D.Polygon.isInsideRot vs p :=
+  ⟨Inside2D.Polygon.halfTurn_trans_scale hk t p a b, Inside2D.Polygon.isInsideRot_trans_scale hk t vs p⟩
 
-/-- **`Ellipse.is_inside` (the coded box test)**: translations and positive scalings under the same window
-condition; the quarter turn mapping the ellipse `(a, b)` to `(b, a)` does NOT preserve it (C06 finding). -/
-theorem inside_ellipse_partial {k : ℝ} (hk : 0 < k) (t : V3 ℝ) (a b : ℝ) (c p : V3 ℝ)
-    (hwin : |k * (p - c).z| ≤ 1 / 100000000 ↔ |(p - c).z| ≤ 1 / 100000000) :
+/-- **…but NOT under rotations of the plane, term by term** (quarter turn, one edge): like in 3-D, rotation invariance
+is a property of the sum round a closed polygon only (`inside_polygon_sim`). -/
+theorem inside_polygon_summand_rot_fails :
+    ¬ (∀ p a b : Inside2D.P2 ℝ, Inside2D.Polygon.halfTurn ⟨-p.y, p.x⟩ ⟨-a.y, a.x⟩ ⟨-b.y, b.x⟩
+        = Inside2D.Polygon.halfTurn p a b) :=
+  Inside2D.Polygon.halfTurn_rot_fails
+
+/-- **C09, `Circle.is_inside`** (C06's model, as repaired in bab419e: `isclose(z, 0, atol = 1e-8 · radius)`): covariant
+under EVERY similarity that keeps the `z` direction — rotation about `z`, any translation, any positive scale — for
+every point of space, in the plane or off it. -/
+theorem inside_circle_sim {g : Sim} (hg : g.Proper) (hz : Inside2D.KeepsZ g) (r : ℝ) (c p : V3 ℝ) :
+    Inside2D.Circle.isInside1 (g.k * r) (g.pt c) (g.pt p) = Inside2D.Circle.isInside1 r c p :=
+  Inside2D.circle_isInside1_sim_full hg hz r c p
+
+/-- **`Ellipse.is_inside`** (C06's model, `atol = 1e-8 · max(a, b)`; still the coded one-sided box test): covariant
+under every translation and positive scaling, every point of space. -/
+theorem inside_ellipse_sim {k : ℝ} (hk : 0 < k) (t : V3 ℝ) (a b : ℝ) (c p : V3 ℝ) :
     Inside2D.Ellipse.isInside1 (k * a) (k * b) (V3.smul k c + t) (V3.smul k p + t) = Inside2D.Ellipse.isInside1 a b c p :=
-  Inside2D.ellipse_isInside1_trans_scale hk t a b c p hwin
+  Inside2D.ellipse_isInside1_trans_scale_full hk t a b c p
 
+/-- the quarter turn mapping the ellipse `(a, b)` to `(b, a)` does NOT preserve the coded box test (C06 finding) -/
 theorem inside_ellipse_quarter_fails :
     ¬ (∀ (a b : ℝ) (c p : V3 ℝ),
         Inside2D.Ellipse.isInside1 b a ⟨-c.y, c.x, c.z⟩ ⟨-p.y, p.x, p.z⟩ = Inside2D.Ellipse.isInside1 a b c p) :=
-  Inside2D.ellipse_inside_quarter_fails
+  Inside2D.ellipse_isInside1_quarter_fails
+
+/-- **the expression BEFORE bab419e** (`Inside2D.circleInsideAbs`: absolute `np.isclose(z, 0)`), kept as the statement
+of what the oracle's corpus case guards against: covariant exactly when the out-of-plane offset and its image are on
+the same side of `1e-8` — in particular for `|dz| ≤ 1e-8·min(1, 1/k)` or `|dz| > 1e-8·max(1, 1/k)` — -/
+theorem inside_circle_old_window_partial {g : Sim} (hg : g.Proper) (hz : Inside2D.KeepsZ g) (r : ℝ) (c p : V3 ℝ)
+    (h : |(p - c).z| ≤ 1 / 100000000 * Min.min 1 (1 / g.k) ∨ 1 / 100000000 * Max.max 1 (1 / g.k) < |(p - c).z|) :
+    Inside2D.circleInsideAbs (g.k * r) (g.pt c) (g.pt p) = Inside2D.circleInsideAbs r c p :=
+  Inside2D.circle_isInside1_sim hg hz r c p (Inside2D.isclose_window_scale hg.kpos h)
+
+/-- **…and not in general** (unit circle, point `2·10⁻⁸` above the centre, scale `1/10`) -/
+theorem inside_circle_old_scale_fails :
+    ¬ (∀ (k : ℝ), 0 < k → ∀ (r : ℝ) (c p : V3 ℝ),
+        Inside2D.circleInsideAbs (k * r) (V3.smul k c) (V3.smul k p) = Inside2D.circleInsideAbs r c p) :=
+  Inside2D.circle_inside_scale_fails
 
 /-- **C09, centred balls**: `minimal_centered_bounding_*`, `maximal_centered_bounded_sphere` (with its
 `ValueError`), `maximal_centered_bounded_circle`: centre moves with the shape, radius × k, same error. -/
@@ -663,39 +694,41 @@ theorem descriptors_sim {k : ℝ} (hk : k ≠ 0) (mc A V P : ℝ) :
     Steiner.Shape2D.iq (k ^ 2 * A) (k * P) = Steiner.Shape2D.iq A P :=
   Steiner.descriptors_sim hk mc A V P
 
-/-! ## 6. The absolute tolerances still in the Python: exact ranges of covariance, witnesses of failure -/
+/-! ## 6. Tolerances: the repaired ones are covariant; the absolute ones still in the Python (and the two repaired here, as regression statements) with their exact ranges and witnesses of failure -/
 
-/-- **`Polygon.__init__`, decisions that are covariant**: the first-corner normal rotates with the shape, the
-orthogonality test of a supplied normal is invariant, and an exactly planar polygon passes the coplanarity loop at
-every scale, orientation and position. -/
+/-- **`Polygon.__init__`, every geometric decision is covariant** (C15's model, coplanarity test as repaired in
+744f807): the first-corner normal rotates with the shape, the orthogonality test of a supplied normal is invariant, and
+the coplanarity test `|(v − v₀)·n| ≤ ptol · max‖w − v₀‖` gives the same answer for `g(x)` — for EVERY vertex list
+(planar or not), normal and tolerance.  (Simplicity: `edgesOK_similarity` of C15.) -/
 theorem ctor_decisions_sim {g : Sim} (hg : g.Proper) (verts : List (V3 ℝ)) (h3 : 3 ≤ verts.length)
-    (computed : Option (V3 ℝ)) (nv n : V3 ℝ) {ptol : ℝ} (hp : 0 ≤ ptol)
-    (hplanar : ∀ v ∈ verts, V3.dot n v = V3.dot n (verts.getD 0 V3.zero)) :
+    (computed : Option (V3 ℝ)) (nv n : V3 ℝ) (ptol : ℝ) :
     C15.cornerNormal (verts.map g.pt) = (C15.cornerNormal verts).map g.dir ∧
     C15.chooseNormal (computed.map g.dir) (some (g.dir nv)) =
       (match C15.chooseNormal computed (some nv) with
        | .ok o => .ok (o.map g.dir)
        | .error e => .error e) ∧
-    C15.coplanar (g.dir n) (verts.map g.pt) ptol = true :=
-  ⟨C15.cornerNormal_sim hg verts h3, C15.chooseNormal_sim hg computed nv,
-   C15.coplanar_sim_planar hg n verts (by intro h; rw [h] at h3; simp at h3) hp hplanar⟩
+    C15.coplanarRel (g.dir n) (verts.map g.pt) ptol = C15.coplanarRel n verts ptol ∧
+    C15.planarExtent (verts.map g.pt) = g.k * C15.planarExtent verts :=
+  ⟨C15.cornerNormal_sim hg verts h3, C15.chooseNormal_sim hg computed nv, C15.coplanarRel_sim hg n verts ptol,
+   C15.planarExtent_sim hg verts (by intro h; rw [h] at h3; simp at h3)⟩
 
-/-- **the coplanarity loop `np.isclose(n·v, d, planar_tolerance)`, exact range**: at scale `k` a polygon passes iff
-every out-of-plane deviation is `≤ 1e-8/k + ptol·|d|` (`d` = distance of the plane from the ORIGIN). -/
-theorem ctor_coplanar_scale_iff {k : ℝ} (hk : 0 < k) (n : V3 ℝ) (verts : List (V3 ℝ)) (hne : verts ≠ []) (ptol : ℝ) :
+/-- **the coplanarity loop BEFORE 744f807** (`C15.coplanar`: `np.isclose(n·v, d, planar_tolerance)`, kept in C15's
+model as a regression witness), exact range: at scale `k` a polygon passed iff every out-of-plane deviation was
+`≤ 1e-8/k + ptol·|d|` (`d` = distance of the plane from the ORIGIN) — -/
+theorem ctor_coplanar_old_scale_iff {k : ℝ} (hk : 0 < k) (n : V3 ℝ) (verts : List (V3 ℝ)) (hne : verts ≠ []) (ptol : ℝ) :
     C15.coplanar n (verts.map (V3.smul k)) ptol = true ↔
       ∀ v ∈ verts, |V3.dot n v - V3.dot n (verts.getD 0 V3.zero)|
         ≤ 1 / 100000000 / k + ptol * |V3.dot n (verts.getD 0 V3.zero)| :=
   C15.coplanar_scale_iff hk n verts hne ptol
 
-/-- **…hence not scale covariant and not translation covariant** for polygons that are not exactly planar: the
-quadrilateral bent by `10⁻⁷` of its size is rejected at size 1 at the origin, accepted at size `10⁻²`, and accepted
-one unit away from the origin. -/
-theorem ctor_coplanar_scale_fails :
+/-- **…hence neither scale nor translation covariant**: the quadrilateral bent by `10⁻⁷` of its size was rejected at
+size 1 at the origin, accepted at size `10⁻²`, and accepted one unit away from the origin (what the oracle's
+float32-polygon corpus case guards against). -/
+theorem ctor_coplanar_old_scale_fails :
     ¬ (∀ (k : ℝ), 0 < k → ∀ (n : V3 ℝ) (verts : List (V3 ℝ)) (ptol : ℝ),
         C15.coplanar n (verts.map (V3.smul k)) ptol = C15.coplanar n verts ptol) := C15.coplanar_scale_fails
 
-theorem ctor_coplanar_translate_fails :
+theorem ctor_coplanar_old_translate_fails :
     ¬ (∀ (t n : V3 ℝ) (verts : List (V3 ℝ)) (ptol : ℝ),
         C15.coplanar n (verts.map (· + t)) ptol = C15.coplanar n verts ptol) := C15.coplanar_translate_fails
 
@@ -821,11 +854,20 @@ example : (∀ v ∈ exSq9, V3.dot (v - (⟨0, 0, 0⟩ : V3 ℝ)) ⟨0, 0, 1⟩ 
   simp only [exSq9, List.mem_cons, List.not_mem_nil, or_false] at hv
   rcases hv with rfl | rfl | rfl | rfl <;> simp [V3.dot]
 
-/-- `ctor_decisions_sim`: the unit square is exactly planar for `n = ẑ` -/
-example : ∀ v ∈ exSq9, V3.dot (⟨0, 0, 1⟩ : V3 ℝ) v = V3.dot (⟨0, 0, 1⟩ : V3 ℝ) (exSq9.getD 0 V3.zero) := by
-  intro v hv
-  simp only [exSq9, List.mem_cons, List.not_mem_nil, or_false] at hv
-  rcases hv with rfl | rfl | rfl | rfl <;> simp [V3.dot, exSq9]
-
+/-- `inside_polygon_sim`: its hypotheses hold for C06's unit square in the plane `z = 2` seen with the normal `−ẑ`
+(Kabsch frame `diag(−1, 1, −1)`), triangulated by a diagonal, and the point `(1/2, 1/3, 2)` -/
+example : Inside2D.IsFrame (⟨-1, 0, 0, 0, 1, 0, 0, 0, -1⟩ : M3 ℝ) ⟨0, 0, -1⟩ ∧
+    Inside2D.EdgeChainEq3 (Inside2D.edges sq3) (sq3Ts.flatMap Spec.In2D.Tri3.bdry) ∧
+    (∀ t ∈ sq3Ts, Spec.In2D.orient3 ⟨0, 0, -1⟩ t.a t.b t.c < 0) ∧
+    (∀ t ∈ sq3Ts, Spec.In2D.onBoundary3 ⟨0, 0, -1⟩ t ⟨1/2, 1/3, 2⟩ = false) := by
+  refine ⟨frame_minus_z, sq3_chain, ?_, ?_⟩
+  · intro t ht
+    simp only [sq3Ts, List.mem_cons, List.not_mem_nil, or_false] at ht
+    rcases ht with rfl | rfl <;> norm_num [Spec.In2D.orient3, V3.dot, V3.cross]
+  · intro t ht
+    simp only [sq3Ts, List.mem_cons, List.not_mem_nil, or_false] at ht
+    rcases ht with rfl | rfl <;>
+      simp only [Spec.In2D.onBoundary3, Spec.In2D.onSegment3, Spec.In2D.orient3, Spec.In2D.dot3, V3.dot, V3.cross,
+        Inside2D.eqb_real, Scalar.lit, Scalar.ofNat_real, V3.sub_x, V3.sub_y, V3.sub_z] <;> norm_num
 
 end
